@@ -4,5 +4,5 @@ From H3V Require Import Base.Bytes Spec.RFC9000 Spec.RFC9297 Model.Varint Model.
 Extraction Language OCaml.
 Extraction "C18_model.ml"
   N.add N.mul N.div_eucl N.ltb N.leb N.eqb N.min len
-  dg_new dg_encode dg_remaining dg_chunk dg_advance dg_decode dg_view
+  dg_new dg_encode dg_remaining dg_chunk dg_advance dg_decode dg_view dg_tx dg_rx
   rfc_dg_bytes rfc_dg_decode H3_DATAGRAM_ERROR_rfc.
